@@ -263,9 +263,9 @@ def run(ctx):
     # extents in which a pool's own extent decided the table (Sapling, Orchard; Ironwood on the thorough tier), tip
     # updates through the Verify, the ChainTip and the Historic rule, with and without shard metadata
     need = {"scan_extents_differ": 8, "scan_needs_S": 3, "scan_needs_O": 3, "tip_verify": 4, "tip_verify-empty": 1,
-            "tip_chaintip": 10, "tip_historic": 10, "tip_historic+shard": 1, "tip_shard_above_scanned": 2}
+            "tip_chaintip": 10, "tip_historic": 10, "tip_historic+shard": 1, "tip_shard_above_scanned": 1}
     if not ctx.quick():
-        need.update({"scan_needs_I": 2, "scan_extents_differ": 30})
+        need.update({"scan_needs_I": 2, "scan_extents_differ": 30, "tip_shard_above_scanned": 3})
     if not ctx.violations:
         short = {k: (wqstats.get(k, 0), v) for k, v in need.items() if wqstats.get(k, 0) < v}
         if short:
